@@ -53,7 +53,7 @@ RULE = ("Hypothesis-generated call histories (lists of operations executed by an
         "contour - an index requested again after eviction or served from the deque; "
         "ds - a re-read after a successful in-place modification of the first read. "
         "distinct = sha1 of the canonical JSON spec")
-BUDGET = {"quick": 480, "thorough": 7200}
+BUDGET = {"quick": 1440, "thorough": 14000}
 ESSENTIAL = [
     "memo:recall-after-eviction", "memo:sibling-dtype", "memo:sibling-split",
     "memo:layout-noncontiguous", "memo:xout-2d", "memo:cross-function",
